@@ -148,6 +148,7 @@ void note_called(const char *name);
 
 volatile int *find_self_test_word(void (*setter)(int));
 unsigned obj_misalign(unsigned al);
+int obj_reuse(void);
 int gbuf_alloc_obj(gbuf *g, size_t len, unsigned al);
 void gbuf_move_obj(gbuf *g, unsigned al);
 
